@@ -78,7 +78,9 @@ CLAIMS["C03"] = {
             "staircase paths over the slots, all realisable sets of in-flight jobs incl. zero swaps, 1..k-1 workers), k <= 4 (5 thorough), "
             "plus every event sequence from the real initial states to depth 2-3 (k<=3; deeper thorough). After each call: in-flight "
             "ensembles and paths pairwise disjoint, exactly those marked busy, each job's path has non-zero own weight, no shared engine "
-            "instance / worker directory / pin, a zero swap starts only with both idle and holds both, no lock/unlock assertion fires. "
+            "instance / worker directory / pin, a zero swap starts only with both idle and holds both, no lock/unlock assertion fires; "
+            "on a subset the same holds for the jobs handed out after one restart (initiation completed) and after a second restart "
+            "from the file written when one of them finished. "
             "Since I is re-established, it holds after histories of any length within the size bound.",
     "design_ref": "DESIGN.md section 3 C03-C05 (HRX)", "note": HRXNOTE, "technique": TECH_HRX,
 }
@@ -139,7 +141,8 @@ CLAIMS["C18"] = {
     "level": "other",
     "text": "Partial (validation predicate + initialisation; the TOML re-read fixed point of setup_config is outside). check_config runs "
             "on configurations with 0..4 symbolic interface values (every order and coincidence), symbolic cap / lambda_-1 / worker "
-            "count, all sh/wf move vectors of length k-1..k+1, engine defined or not: every configuration invalid by the property's list "
+            "count, all sh/wf move vectors of length k-1..k+1, engine defined or not, and ensemble_engines layouts over three names each "
+            "undefined or one of five definitions (with / without input_path, gromacs or not): every configuration invalid by the property's list "
             "raises TOMLConfigError (never another exception); every accepted configuration runs REPEX_state.__init__, "
             "initiate_ensembles, load_paths on staircase initial paths and the first `workers` picks without error, with a valid "
             "probability vector, disjoint jobs marked busy.",
